@@ -117,6 +117,7 @@ type Gen struct {
 	boolDef      map[int]bool      // prefix lines kept in sliced contexts: definitions and type-range facts
 	marks        map[string]int    // named positions in the prefix
 	ghostSorts   map[string]string
+	hoisted      map[*ssa.Alloc]string
 }
 
 func (g *Gen) ghostSortOf(name string) string {
@@ -404,9 +405,80 @@ func (g *Gen) alloc(hint string) string {
 	obj := g.def("obj_"+hint, "Int", g.nextobj)
 	g.nextobj = g.def("nextobj", "Int", fmt.Sprintf("(+ %s 1)", obj))
 	for _, s := range g.sorts {
-		g.heap[s] = g.def("H"+s, g.heapSort(s), fmt.Sprintf("(store %s %s ((as const (Array Int %s)) %s))", g.heap[s], obj, s, g.zeroOf(s)))
+		g.heap[s] = g.def("H"+s, g.heapSort(s), fmt.Sprintf("(store %s %s %s)", g.heap[s], obj, zeroRow(s)))
 	}
 	return obj
+}
+
+func zeroRow(s string) string {
+	switch s {
+	case "Int":
+		return "((as const (Array Int Int)) 0)"
+	case "Fp":
+		return "fp_zero_row"
+	case "Fr":
+		return "fr_zero_row"
+	case "Bytes":
+		return "bytes_empty_row"
+	}
+	return "((as const (Array Int " + s + ")) 0)"
+}
+
+// hoistable: a stack-local variable whose address never becomes a stored/returned/captured value can be given
+// one object per allocation site (allocated at function entry, re-zeroed at each execution): no pointer to an
+// earlier instance can survive, so instances need not be distinguished.
+func hoistable(al *ssa.Alloc) bool {
+	var ok func(v ssa.Value, depth int) bool
+	ok = func(v ssa.Value, depth int) bool {
+		if depth > 6 {
+			return false
+		}
+		refs := v.Referrers()
+		if refs == nil {
+			return false
+		}
+		for _, r := range *refs {
+			switch x := r.(type) {
+			case *ssa.Store:
+				if x.Val == v {
+					return false
+				}
+			case *ssa.UnOp, *ssa.DebugRef:
+			case *ssa.IndexAddr:
+				if !ok(x, depth+1) {
+					return false
+				}
+			case *ssa.FieldAddr:
+				if !ok(x, depth+1) {
+					return false
+				}
+			case *ssa.Slice:
+				if !ok(x, depth+1) {
+					return false
+				}
+			case *ssa.Call:
+				// passed as an argument: callee contracts cannot retain it except through their modifies clause
+			default:
+				return false
+			}
+		}
+		return true
+	}
+	return ok(al, 0)
+}
+
+// allocAt: allocation for an Alloc instruction.
+func (g *Gen) allocAt(al *ssa.Alloc) string {
+	if g.hoisted == nil {
+		g.hoisted = map[*ssa.Alloc]string{}
+	}
+	if obj, ok := g.hoisted[al]; ok {
+		for _, s := range g.sorts {
+			g.heap[s] = g.def("H"+s, g.heapSort(s), fmt.Sprintf("(store %s %s %s)", g.heap[s], obj, zeroRow(s)))
+		}
+		return obj
+	}
+	return g.alloc(al.Comment)
 }
 
 // ---------- constants ----------
@@ -567,6 +639,27 @@ func (g *Gen) run() {
 	g.assumeRaw(fmt.Sprintf("(> nextobj0 %d)", g.eng.maxGlobalID()))
 	g.nextobj = g.nextobj0
 	g.reach = "true"
+	// stack locals allocated inside loops: one object per site, reserved at entry
+	g.hoisted = map[*ssa.Alloc]string{}
+	if len(fn.Blocks) > 0 {
+		g.findLoops()
+		nh := 0
+		for _, b := range fn.Blocks {
+			if len(g.inLoop[b]) == 0 {
+				continue
+			}
+			for _, ins := range b.Instrs {
+				if al, ok := ins.(*ssa.Alloc); ok && hoistable(al) {
+					obj := g.def("obj_"+al.Comment, "Int", fmt.Sprintf("(+ nextobj0 %d)", nh))
+					g.hoisted[al] = obj
+					nh++
+				}
+			}
+		}
+		if nh > 0 {
+			g.nextobj = g.def("nextobj", "Int", fmt.Sprintf("(+ nextobj0 %d)", nh))
+		}
+	}
 
 	// parameters and free variables
 	var ptrParams []*Val
@@ -620,7 +713,6 @@ func (g *Gen) run() {
 		g.errs = append(g.errs, "function has no body (assembly or external): contract must be marked assumed")
 		return
 	}
-	g.findLoops()
 	order := g.blockOrder()
 	for _, b := range order {
 		g.walkBlock(b)
